@@ -76,7 +76,7 @@ func genPartial(r *rand.Rand, npm bool) Partial {
 			hasX = true
 		}
 	}
-	if len(p.Nums) == 3 && r.Intn(3) == 0 && (!hasX || (npm && r.Intn(4) == 0)) {
+	if len(p.Nums) == 3 && r.Intn(3) == 0 && !hasX {
 		p.Pre = genPre(r)
 	}
 	if len(p.Nums) == 3 && !hasX && r.Intn(12) == 0 {
